@@ -212,6 +212,17 @@ var keywords = map[string]TokenType{
 	DATA_TYPE_ERROR:   DATA_TYPE,
 }
 
+// Token types an operand can end with.
+var operandEndTokens = []TokenType{
+	IDENTIFIER,
+	NUMBER_LITERAL,
+	STRING_LITERAL,
+	BOOL_LITERAL,
+	NIL_LITERAL,
+	CLOSING_ROUND_BRACKET,
+	CLOSING_SQUARE_BRACKET,
+}
+
 func newToken(value string, tokenType TokenType, row int, column int) Token {
 	return Token{
 		value:     value,
@@ -247,6 +258,13 @@ func Tokenize(source string) ([]Token, error) {
 		ogI := i
 		ogRow := row
 		ogColumn := column
+
+		// A minus sign belongs to a number literal only where no operand precedes it (a -1 is a subtraction).
+		numberPattern := `^-?\d+(\.\d+)?`
+
+		if length := len(tokens); length > 0 && slices.Contains(operandEndTokens, tokens[length-1].tokenType) {
+			numberPattern = `^\d+(\.\d+)?`
+		}
 
 		if raw := c0 == "`"; raw || c0 == `"` {
 			// Evaluate string.
@@ -296,7 +314,7 @@ func Tokenize(source string) ([]Token, error) {
 			// Create bool token.
 			token = newToken(match, BOOL_LITERAL, ogRow, ogColumn)
 			i += len(match)
-		} else if match := regexp.MustCompile(`^-?\d+(\.\d+)?`).FindString(source[i:]); match != "" {
+		} else if match := regexp.MustCompile(numberPattern).FindString(source[i:]); match != "" {
 			// Create number token.
 			token = newToken(match, NUMBER_LITERAL, ogRow, ogColumn)
 			i += len(match)
